@@ -602,7 +602,10 @@ func runC15GobMulti(c *Ctx) *Violation {
 	}
 	stepsBefore := c.Steps
 	var g []byte
-	if v := safely(c, "Gob", func() { g = canonicalGob(m, keys) }); v != nil {
+	c.quiet = true
+	v := safely(c, "Gob", func() { g = canonicalGob(m, keys) })
+	c.quiet = false
+	if v != nil {
 		c.Put("map", strings.Join(descr, " "))
 		return v
 	}
